@@ -4,6 +4,14 @@ CLAIMED["C16"] = dict(
     text="Bounded symbolic model checking of Invert/Normalize/String/Schema.Rels from their SSA: every law is an SMT query over all names (all 256 byte values per position) up to the length bound and both cardinalities; the schema half covers every coherent schema of 2 types and up to 2 relationships/pairs, both build orders and the explored map iteration orders. Unbounded names and larger schemas are outside the claim.",
     note=_tb + "; sort.Slice modelled as the insertion sort pdqsort performs for n<=12; map iteration order explored as insertion/reversed (quick) or all permutations of <=4 entries (thorough) inside buildRels/Rels only",
     technique="bounded symbolic execution of go/ssa + SMT (QF_BV), counterexamples replayed natively")
+CLAIMED["C15"] = dict(
+    text="Bounded symbolic model checking of Schema.Check against a transcription of the statement: every schema of T<=2 (thorough 3) types with <=2 relationships each, every name an independent symbolic byte string (so every equality pattern between names occurs), FromType free, one-way and two-way; soundness (empty iff coherent), one error per offender, no panic, schema unchanged (deep equality with a snapshot) are SMT queries on every path.",
+    note=_tb + "; fmt.Errorf modelled as a fresh non-nil error (messages are not observed); names of length 0..1 only (Check compares names for equality/emptiness only)",
+    technique="bounded symbolic execution of go/ssa + SMT (QF_BV), counterexamples replayed natively")
+CLAIMED["C14"] = dict(
+    text="One inductive step from an arbitrary well-formed schema (symbolic pre-state of <=2 (thorough 3) types with 0..1 attribute and relationship each, with and without spare slice capacity) through each edit operation with symbolic arguments: no panic, invariant re-established, lookups agree with the list, error implies deep-equal to the pre-state snapshot, removal of an absent item is a no-op, AddTwoWayRel succeeds in both directions and within one type. The invariant is assumed and re-established, so histories of any length within the shape bound are covered.",
+    note=_tb + "; names of length 0..1 (single symbolic byte), fmt.Errorf modelled as fresh error; nil map and empty map are distinguished by the deep equality (as reflect.DeepEqual does)",
+    technique="inductive-step bounded symbolic execution of go/ssa + SMT (QF_BV), counterexamples replayed natively")
 _pending = "check not built yet in this session (engine exists; harness pending) — see DESIGN.md build order"
-for _p in ["C01","C02","C03","C04","C05","C06","C07","C08","C09","C10","C11","C12","C13","C14","C15","C17","C18","C19","C20"]:
+for _p in ["C01","C02","C03","C04","C05","C06","C07","C08","C09","C10","C11","C12","C13","C17","C18","C19","C20"]:
     NA[_p] = _pending
